@@ -2,7 +2,7 @@
 
 use crate::batch::{PropDef, Scen};
 use crate::core::{Ctx, VResult};
-use crate::{d1c03, d1req, d1stream, d2, d4};
+use crate::{d1c03, d1req, d1stream, d2, d2sema, d3, d4};
 
 const REAL_SYNC: &[&str] = &[
     "fastcgi_server::parser::request::Parser (built from /repo working tree, debug-assertions + overflow-checks on)",
@@ -141,9 +141,16 @@ pub fn all() -> Vec<PropDef> {
     });
     v.push(PropDef {
         id: "C14", level: "exploration", driver: "D2 deterministic executor (connection side); D3 thread scheduler (wait group)",
-        scens: vec![s("conn_shutdown", d2::c14_conn, 30_000, 3_000_000)],
-        rule: "connection side: one connection task plus the shutdown future as a second task; Runner::shutdown is requested as a scheduler event at a chooser-picked step (before the first read, during a preamble, during the handler, during close, between requests, while idle); checked: started requests complete incl. EndRequest, no handler begins in a poll that starts after the request, idle connections stop without a further transport read, the shutdown future is Ready only after the token is gone and is woken for it",
-        assumptions: vec![],
+        scens: vec![s("conn_shutdown", d2::c14_conn, 30_000, 3_000_000), s("waitgroup_threads", d3::c14_wg, 20_000, 1_500_000), s("runner_histories", d2sema::c13, 20_000, 2_000_000)],
+        rule: "connection side: one connection task plus the shutdown future as a second task; Runner::shutdown is requested as a scheduler event at a chooser-picked step (before the first read, during a preamble, during the handler, during close, between requests, while idle); checked: started requests complete incl. EndRequest, no handler begins in a poll that starts after the request, idle connections stop without a further transport read, the shutdown future is Ready only after the token is gone and is woken for it; wait group (D3): one real thread polls the shutdown future in a poll-then-wait-for-waker loop while 1..3 real threads drop 1..4 tokens, exactly one thread runs at a time and the next one is chosen by seed at every harness operation, every callback of the poller's Waker (clone/wake/drop, reached from inside AtomicWaker::register and the inner Drop) and the verif-hooks points in WaitGroupFuture::poll and WaitGroupInner::drop; Ready never before every drop has begun, never blocked forever once all drops are done; runner histories: shutdown futures of a runner and its clones polled against the set of live tokens per runner",
+        assumptions: vec!["the thread scheduler serialises at operation/hook granularity (sequentially consistent); interleavings inside futures' AtomicWaker and weak-memory effects are not explored"],
+        real: REAL_ASYNC.to_vec(), stub: STUB_ASYNC.to_vec(),
+    });
+    v.push(PropDef {
+        id: "C13", level: "exploration", driver: "D2 (single-threaded histories; every get_token future has its own waker)",
+        scens: vec![s("histories", d2sema::c13, 60_000, 6_000_000)],
+        rule: "each run = one seeded history (6..70 operations) over a runner with limit 1..4 and its clones: create a get_token future on any runner, poll one (woken ones preferred half of the time), drop a token unused, cancel a pending request, run a token to completion on a simulated connection (client closes / one request / handler panics and unwinds through Token::run), clone a runner, shut a runner down and poll shutdown futures; after every operation: live tokens <= limit, a free slot with queued requests implies one of them was woken since it last returned Pending, first-poll and woken-poll readiness clauses; distinct = distinct (skeleton, digest)",
+        assumptions: vec!["interleavings inside async-lock / event-listener are not explored (operations are atomic at harness granularity); what is decided is how fastcgi-server uses the semaphore"],
         real: REAL_ASYNC.to_vec(), stub: STUB_ASYNC.to_vec(),
     });
     v
